@@ -38,7 +38,7 @@ VIEWS = ['textures', 'texinfo', 'planes', 'vertexes', 'surfedges', 'primitives',
 # features a generated world may contain; a failing world is shrunk to the features it needs
 FEATURES = ['shape_detail', 'sprite_detail', 'model_detail', 'water', 'tail_overlap', 'fresh_objects', 'shared_objects',
             'long_names', 'hdr', 'physics', 'outputs', 'special_text', 'big_runs', 'hi_bytes', 'many', 'float_bounds',
-            'near_duplicates']
+            'near_duplicates', 'grafted', 'resave']
 
 
 def make_base(src_bsp: str, dst: str) -> None:
@@ -52,6 +52,10 @@ def make_base(src_bsp: str, dst: str) -> None:
     b.lumps[B.BSP_LUMPS.PAKFILE].data = b''
     with contextlib.redirect_stdout(io.StringIO()):
         b.save(dst)
+    # the file just written is the base of every generated world: it must be readable, view by view
+    b2 = B.BSP(dst)
+    for v in VIEWS:
+        getattr(b2, v)
 
 
 def apply_config(b: Any, cfg: str) -> None:
@@ -494,7 +498,131 @@ class Gen:
             else:
                 det.append(B.DetailPropShape(*base, *spr, r.random() < 0.5, r.randint(0, 255), r.randint(0, 255)))
         w['detail_props'] = det
+        if 'grafted' in F:
+            self.graft(w)
         return w
+
+    def graft(self, w: dict[str, Any], part: str = 'graft') -> None:
+        """Objects that are reachable ONLY through references of other objects, at depth >= 2, and are in no owning list:
+        the writers are documented to add referenced objects themselves (find_or_insert / find_or_extend append what they do
+        not know yet), so every one of them must get an index, a record, and be read back where it was referred to.
+        node -> node -> node -> leaf -> face -> original face -> texinfo -> texdata -> texture name; leaf -> brush -> side ->
+        plane; face -> edges -> vertexes, primitives; brush model -> node, faces; static prop -> leaf; water info / overlay ->
+        texinfo.  A separate generator: the world without the feature is unchanged."""
+        import srctools.bsp as B
+        from srctools.const import BSPContents, SurfFlags
+        r = self.rng(part)
+        F = self.feats
+        planes, verts, leafs, nodes = w['planes'], w['vertexes'], w['visleafs'], w['nodes']
+        count = [0]
+
+        def g_texinfo() -> Any:
+            count[0] += 1
+            td = B.TexData(f'{part}/{self.seed % 1000}_{count[0]}', self.vec(r), r.randint(0, 4096), r.randint(0, 4096))
+            return B.TexInfo(self.vec(r), self.fl(r), self.vec(r), self.fl(r), self.vec(r), self.fl(r), self.vec(r), self.fl(r),
+                             SurfFlags(r.choice([0, 1, 0x80])), td)
+
+        def g_plane() -> Any:
+            return B.Plane(self.vec(r), self.fl(r), B.PlaneType(r.randint(0, 5)))
+
+        def g_edges() -> list:
+            return [B.Edge(self.vec(r), r.choice(verts)), B.Edge(self.vec(r), self.vec(r))][:r.randint(1, 2)]
+
+        def g_face(depth: int) -> Any:
+            if self.vit:
+                return B.Face(g_plane(), False, False, g_edges(), g_texinfo(), r.randint(-5, 5), 0, b'\0\0\0\0', 0, 0,
+                              (r.randint(-9, 9), r.randint(-9, 9)), (r.randint(0, 99), r.randint(0, 99)), None, [], False, 0, None,
+                              r.randint(0, 255))
+            orig = None
+            ti, hid = g_texinfo(), r.randint(1, 65535)
+            if depth > 0:
+                orig = g_face(0)
+                orig.texinfo, orig.hammer_id = ti, hid
+            prims = [B.Primitive(r.random() < 0.5, [r.randint(0, 65535) for _ in range(r.randint(0, 3))], [self.vec(r) for _ in range(r.randint(0, 2))])
+                     for _ in range(r.randint(0, 2))]
+            return B.Face(g_plane() if r.random() < 0.7 else r.choice(planes), r.random() < 0.5, r.random() < 0.5, g_edges(),
+                          ti if depth > 0 else None, r.randint(-1, 300), r.randint(-1, 300), bytes(r.randint(0, 255) for _ in range(4)),
+                          r.randint(-1, 1 << 20), self.fl(r), (r.randint(-900, 900), r.randint(-900, 900)), (r.randint(0, 999), r.randint(0, 999)),
+                          orig, prims, r.random() < 0.5, r.getrandbits(32), hid if depth > 0 else None, 0)
+
+        def g_brush() -> Any:
+            sides = []
+            for _ in range(r.randint(1, 3)):
+                if self.vit:
+                    sides.append(B.BrushSide(g_plane(), g_texinfo(), r.randint(-3, 3), r.random() < 0.5, r.randint(0, 255)))
+                else:
+                    sides.append(B.BrushSide(g_plane(), g_texinfo(), r.randint(-3, 300), r.random() < 0.5, r.choice([0, 2, 0xFFFE])))
+            return B.Brush(BSPContents(r.choice([0, 1, 0x20])), sides)
+
+        # (with HDR faces the face table must not grow: the FACEIDS lump is shared by both face lumps)
+        may_face = 'hdr' not in F
+
+        def g_leaf() -> Any:
+            if self.vit:
+                mins, maxes = self.ivec(r, 0, 70000), self.ivec(r, 0, 70000)
+            elif self.chaos and 'float_bounds' in F:
+                mins, maxes = self.fvec(r), self.fvec(r)
+            else:
+                mins, maxes = self.ivec(r, -32768, 32767), self.ivec(r, -32768, 32767)
+            area = r.randint(-32768, 32767) if self.vit else r.randint(0, (1 << 14) - 1) if self.chaos else r.randint(0, 255)
+            amb = bytes(r.randint(0, 255) for _ in range(24)) if self.cfg == 'v19' else bytes(24)
+            cl = r.randint(-1, 32767) if not self.chaos else r.randint(-1, 1 << 20)
+            return B.VisLeaf(BSPContents(r.choice([0, 1, r.getrandbits(31)])), cl, area, B.VisLeafFlags(r.randint(0, 127)), mins, maxes,
+                             [g_face(1) for _ in range(r.randint(0, 2))] if may_face else [], [g_brush() for _ in range(r.randint(0, 2))],
+                             -1, amb, r.randint(0, 65535))
+
+        def g_node(depth: int) -> Any:
+            if self.chaos and 'float_bounds' in F:
+                mins, maxes = self.fvec(r), self.fvec(r)
+            elif self.vit:
+                mins, maxes = self.ivec(r, -(1 << 20), 1 << 20), self.ivec(r, -(1 << 20), 1 << 20)
+            else:
+                mins, maxes = self.ivec(r, -32768, 32767), self.ivec(r, -32768, 32767)
+            nd = B.VisTree(g_plane(), mins, maxes, [g_face(1) for _ in range(r.randint(0, 2))] if may_face and r.random() < 0.5 else [],
+                           r.randint(-1, 300))
+            kids = [g_node(depth - 1) if depth > 0 else g_leaf(), g_leaf() if r.random() < 0.6 else r.choice(leafs)]
+            if r.random() < 0.5:
+                kids.reverse()
+            nd.child_neg, nd.child_pos = kids
+            return nd
+
+        # 1. a sub-tree of new nodes below an existing node (or the tree of a brush model)
+        if nodes:
+            host = r.choice(nodes)
+            setattr(host, r.choice(['child_neg', 'child_pos']), g_node(r.choice([1, 2, 3])))
+            if r.random() < 0.5:      # ... and a new leaf directly below another listed node
+                setattr(r.choice(nodes), r.choice(['child_neg', 'child_pos']), g_leaf())
+        bm = w['bmodels']
+        if bm is not None and len(bm) and r.random() < 0.6:
+            m = r.choice(list(bm.values()))
+            m.node = g_node(r.choice([0, 1, 2]))
+            if may_face and r.random() < 0.5:
+                m.faces = [g_face(1) for _ in range(r.randint(1, 2))]
+        # 2. new faces / brushes below listed leafs, new original faces behind listed faces
+        for lf in leafs[:2]:
+            if r.random() < 0.5:
+                lf.brushes = list(lf.brushes) + [g_brush()]
+            if may_face and r.random() < 0.5:
+                lf.faces = list(lf.faces) + [g_face(1)]
+        if w['brushes'] and r.random() < 0.7:       # a listed brush with sides that sit on new planes / texinfo
+            b0 = r.choice(w['brushes'])
+            b0.sides = list(b0.sides) + g_brush().sides
+        if may_face and not self.vit and w['faces'] and r.random() < 0.5:      # ('hdr' off: hdr_faces is empty)
+            f0 = r.choice(w['faces'])
+            old = f0.orig_face
+            o = g_face(0)
+            o.texinfo, o.hammer_id = f0.texinfo, f0.hammer_id
+            f0.orig_face = o
+            if not any(x.orig_face is old for x in w['faces']):
+                old.texinfo = old.hammer_id = None      # (rule: original faces nobody refers to carry no texinfo / id)
+        # 3. references from the other lumps
+        if w['props'] and r.random() < 0.7:
+            p = r.choice(w['props'])
+            p.visleafs = set(p.visleafs) | {g_leaf()}
+        if w['water_leaf_info'] and r.random() < 0.7:
+            r.choice(w['water_leaf_info']).surface_texinfo = g_texinfo()
+        if w['overlays'] and r.random() < 0.7:
+            r.choice(w['overlays']).texture = g_texinfo()
 
     def ang(self, r: random.Random) -> float:
         # Angle normalises into [0, 360): use float32 values that are already in range
@@ -674,6 +802,45 @@ def first_diff(a: Any, b: Any, path: str = '') -> str | None:
     return None if a == b else f'{path}: {a!r:.80} != {b!r:.80}'
 
 
+class ImplTimeout(BaseException):
+    """A call into the implementation did not return in time (BaseException: an `except Exception` inside the implementation
+    must not swallow it)."""
+
+
+@contextlib.contextmanager
+def time_limit(seconds: float):
+    """Bound a call into the implementation: a fault that makes a writer or reader loop for ever (a work list that never
+    empties, a decoder that does not advance) must end as a failing input, not as a hung check.  Uses SIGALRM/setitimer; outside
+    the main thread (or without signals) it does nothing."""
+    import signal
+    import threading
+    if threading.current_thread() is not threading.main_thread() or not hasattr(signal, 'setitimer'):
+        yield
+        return
+
+    def on_alarm(_sig, _frm):
+        raise ImplTimeout(f'no result after {seconds:g} s')
+    import time
+    old = signal.signal(signal.SIGALRM, on_alarm)
+    outer, _ = signal.setitimer(signal.ITIMER_REAL, seconds)      # (nests: an enclosing limit keeps running afterwards)
+    t0 = time.monotonic()
+    try:
+        yield
+    finally:
+        signal.setitimer(signal.ITIMER_REAL, 0)
+        signal.signal(signal.SIGALRM, old)
+        if outer:
+            signal.setitimer(signal.ITIMER_REAL, max(outer - (time.monotonic() - t0), 0.01))
+
+
+# one save or re-read of a generated world takes 0.02-0.2 s, the largest ('many', 'big_runs') worlds below 1 s on a loaded machine;
+# a writer that loops for ever usually also grows a buffer (~100 MB/s): the limit keeps that below a few GB
+IMPL_TIME_LIMIT = 20.0
+# worlds with the feature 'big_runs' (visibility rows for thousands of clusters, run-length coded in pure Python) take up to 10 s per
+# save / re-read at load average 60
+IMPL_TIME_LIMIT_BIG = 300.0
+
+
 def roundtrip(base: str, workdir: str, g: Gen, only: list[str] | None = None) -> dict[str, str]:
     """Assign the generated world to a copy of the base file, save, re-read, compare. Returns view -> difference.
     The special key '!save' / '!read' reports an exception."""
@@ -681,47 +848,74 @@ def roundtrip(base: str, workdir: str, g: Gen, only: list[str] | None = None) ->
     w = g.build()
     path = os.path.join(workdir, 'case.bsp')
     shutil.copy(base, path)
-    b = B.BSP(path)
-    apply_config(b, g.cfg)
     ver = B.StaticPropVersion[g.prop_ver]
-    b.static_prop_version = ver
-    b.game_lumps[b'sprp'].version = ver.version
-    b.out_comma_sep = w['out_comma_sep']
     expect = canon_views(w, lambda n: w[n], g.vit, ver)
-    order = ['ents'] + [v for v in VIEWS if v != 'ents']
-    for v in order:
-        if only is not None and v not in only:
-            continue
-        if v == 'bmodels' and w[v] is None:
-            continue
-        setattr(b, v, w[v])
+    limit = IMPL_TIME_LIMIT_BIG if 'big_runs' in g.feats else IMPL_TIME_LIMIT
     res: dict[str, str] = {}
     try:
-        with contextlib.redirect_stdout(io.StringIO()):
+        with contextlib.redirect_stdout(io.StringIO()), time_limit(limit):
+            b = B.BSP(path)
+            apply_config(b, g.cfg)
+            b.static_prop_version = ver
+            b.game_lumps[b'sprp'].version = ver.version
+            b.out_comma_sep = w['out_comma_sep']
+            for v in ['ents'] + [v for v in VIEWS if v != 'ents']:
+                if only is not None and v not in only:
+                    continue
+                if v == 'bmodels' and w[v] is None:
+                    continue
+                setattr(b, v, w[v])
             b.save(path)
-    except Exception as e:      # noqa: BLE001 - any exception on a well-formed value is a finding
+    except (Exception, ImplTimeout) as e:      # noqa: BLE001 - any exception on a well-formed value is a finding
         res['!save'] = f'{type(e).__name__}: {e}'[:300]
         return res
     try:
         exp_ver = {'l4d2': B.GameVersion.L4D2, 'vitamin': B.GameVersion.VITAMINSOURCE}.get(g.cfg)
-        b2 = B.BSP(path, exp_ver)
-        if b2.lump_layout is not b.lump_layout:
-            res['!read'] = 'layout of the re-read file differs from the layout written'
-            return res
-        b2.static_prop_version = ver
-        got = canon_views(b2, lambda n: None if (n == 'bmodels' and w['bmodels'] is None) else getattr(b2, n), g.vit, ver)
-    except Exception as e:      # noqa: BLE001
+        with time_limit(limit):
+            b2 = B.BSP(path, exp_ver)
+            if b2.lump_layout is not b.lump_layout:
+                res['!read'] = 'layout of the re-read file differs from the layout written'
+                return res
+            b2.static_prop_version = ver
+            got = canon_views(b2, lambda n: None if (n == 'bmodels' and w['bmodels'] is None) else getattr(b2, n), g.vit, ver)
+    except (Exception, ImplTimeout, RecursionError) as e:      # noqa: BLE001
         res['!read'] = f'{type(e).__name__}: {e}'[:300]
         return res
-    for v in VIEWS:
-        if only is not None and v not in only:
-            continue
-        if v == 'bmodels' and w[v] is None:
-            continue
-        a, c = expect[v], got[v]
-        if v in GROWING and isinstance(a, list) and isinstance(c, list) and len(c) >= len(a):
-            c = c[:len(a)]
-        d = first_diff(a, c, v)
-        if d:
-            res[v] = d
+    def compare(expect: dict, got: dict, note: str) -> None:
+        for v in VIEWS:
+            if only is not None and v not in only:
+                continue
+            if v == 'bmodels' and w[v] is None:
+                continue
+            a, c = expect[v], got[v]
+            if v in GROWING and isinstance(a, list) and isinstance(c, list) and len(c) >= len(a):
+                c = c[:len(a)]
+            d = first_diff(a, c, v)
+            if d and v not in res:
+                res[v] = note + d
+    compare(expect, got, '')
+    if 'resave' in g.feats and not res and only is None:
+        # the other way of using the API: the objects of a file that was READ are changed in place (new objects hung below
+        # them, reachable only through references) and the same BSP object is saved again - state left behind by the first
+        # round (lumps already rebuilt, tables grown by the writers) must not leak into the second
+        get2 = lambda n: None if (n == 'bmodels' and w['bmodels'] is None) else getattr(b2, n)      # noqa: E731
+        w2 = {v: get2(v) for v in VIEWS}
+        if 'grafted' in g.feats:
+            g.graft(w2, 'graft2')
+        expect2 = canon_views(b2, lambda n: w2[n], g.vit, ver)
+        try:
+            with contextlib.redirect_stdout(io.StringIO()), time_limit(limit):
+                b2.save(path)
+        except (Exception, ImplTimeout) as e:      # noqa: BLE001
+            res['!save'] = f'second save of the re-read file: {type(e).__name__}: {e}'[:300]
+            return res
+        try:
+            with time_limit(limit):
+                b3 = B.BSP(path, exp_ver)
+                b3.static_prop_version = ver
+                got3 = canon_views(b3, lambda n: None if (n == 'bmodels' and w['bmodels'] is None) else getattr(b3, n), g.vit, ver)
+        except (Exception, ImplTimeout, RecursionError) as e:      # noqa: BLE001
+            res['!read'] = f'after the second save: {type(e).__name__}: {e}'[:300]
+            return res
+        compare(expect2, got3, 'after changing the re-read objects in place and saving again: ')
     return res
